@@ -1,5 +1,5 @@
 \* thorough 3: three pods (limits are charged twice before the third decision)
-CONSTANTS WeightVecs = {6, 8, 12}  FeatDiag = TRUE  NPods = 3  PodArchs = {1, 2, 3}
+CONSTANTS WeightVecs = {6, 12}  FeatDiag = TRUE  NPods = 3  PodArchs = {1, 2, 3}
 CONSTANTS Feats = {"plain", "taint", "limit", "limit16"}
 CONSTANTS Catalogs = {2}  DaemonSets = {2}  MaxTypesSet = {2}  Policies = {"Strict"}  Weak = ""
 SPECIFICATION Spec
